@@ -328,8 +328,10 @@ class FixedNoiseGaussianLikelihood(_GaussianLikelihoodBase):
 
         old_noise = old_noise_covar.noise
         new_noise = kwargs.get("noise")
-        if old_noise.dim() != new_noise.dim():
-            old_noise = old_noise.expand(*new_noise.shape[:-1], old_noise.shape[-1])
+        # old and new noise may each carry batch dimensions the other one lacks
+        batch_shape = torch.broadcast_shapes(old_noise.shape[:-1], new_noise.shape[:-1])
+        old_noise = old_noise.expand(*batch_shape, old_noise.shape[-1])
+        new_noise = new_noise.expand(*batch_shape, new_noise.shape[-1])
         fantasy_liklihood.noise_covar = FixedGaussianNoise(noise=torch.cat([old_noise, new_noise], -1))
         return fantasy_liklihood
 
@@ -454,8 +456,10 @@ class DirichletClassificationLikelihood(FixedNoiseGaussianLikelihood):
         new_noise, new_targets, _ = fantasy_liklihood._prepare_targets(new_targets, self.alpha_epsilon)
         fantasy_liklihood.targets = torch.cat([fantasy_liklihood.targets, new_targets], -1)
 
-        if old_noise.dim() != new_noise.dim():
-            old_noise = old_noise.expand(*new_noise.shape[:-1], old_noise.shape[-1])
+        # old and new noise may each carry batch dimensions the other one lacks
+        batch_shape = torch.broadcast_shapes(old_noise.shape[:-1], new_noise.shape[:-1])
+        old_noise = old_noise.expand(*batch_shape, old_noise.shape[-1])
+        new_noise = new_noise.expand(*batch_shape, new_noise.shape[-1])
 
         fantasy_liklihood.noise_covar = FixedGaussianNoise(noise=torch.cat([old_noise, new_noise], -1))
         return fantasy_liklihood
